@@ -56,7 +56,7 @@ def _setup(vc, cfg):
         # point, so that the acceptance pattern of the basic solutions is (almost) determined and the path set stays small
         lb = vc.const_array(np.zeros(ns))
         ub = vc.const_array(np.array([1.0, 1.5, 2.0, 1.25, 1.75][:ns]))
-        ctr = np.array([0.5, 0.75, 1.0, 0.5, 0.75][:ns])
+        ctr = np.array((cfg.get("ctr") or [0.5, 0.75, 1.0, 0.5, 0.75])[:ns])
         dx0 = vc.array("x0", (ns,))
         for k in range(ns):
             vc.assume(vc.and_(vc.ge(dx0[k], -0.01), vc.le(dx0[k], 0.01)))
@@ -130,6 +130,9 @@ def extent(vc, cfg):
     if vc.symbolic:
         for c, (cand, acc) in enumerate(cands):
             vc.lemma(f"spec:basic-solution[{c}] solves A x == b", vc.all_(vc.eq(sum(Ac[j, k] * cand[k] for k in range(ns)), b[j]) for j in range(nf)))
+    for c, (cand, acc) in enumerate(cands):
+        vc.prove(f"accepted basic solution [{c}] lies within the reported range",
+                 vc.implies(acc, vc.all_(vc.and_(vc.le(mins[k], cand[k], scale=1.0), vc.le(cand[k], maxs[k], scale=1.0)) for k in range(ns))))
     for k in range(ns):
         vc.prove(f"min-attained[{k}] by an accepted basic solution", vc.any_(vc.and_(acc, vc.eq(cand[k], mins[k], scale=1.0)) for cand, acc in cands))
         vc.prove(f"max-attained[{k}] by an accepted basic solution", vc.any_(vc.and_(acc, vc.eq(cand[k], maxs[k], scale=1.0)) for cand, acc in cands))
@@ -268,9 +271,13 @@ def estimator_dispatch(vc, cfg):
 
 
 def _ext_cfgs(tier):
-    names = ["2x3a", "2x3b", "2x3c"] if tier == "quick" else list(A_FAMILY)
+    names = ["2x3a", "2x3b", "2x3c"] if tier == "quick" else [a for a in A_FAMILY if "float" not in a]
     out = [{"A": a} for a in names]
     out.append({"A": "2x3a", "lb0": True})
+    # two surplus sources: concrete bounds, target in small symbolic neighbourhoods of several interior points
+    out.append({"A": "2x4a", "local": True})
+    out.append({"A": "2x4a", "local": True, "ctr": [0.8, 0.3, 1.6, 0.2]})
+    out.append({"A": "2x4a", "local": True, "ctr": [0.2, 1.2, 0.4, 1.0]})
     return out
 
 
@@ -292,7 +299,9 @@ def _gate_cfgs(tier):
 FC = ["dreye.api.convex._range_of_solutions", "dreye.api.convex._spaced_solutions", "dreye.api.convex.range_of_solutions"]
 CONTRACTS = [
     Contract(P, "_range_of_solutions.extent", extent, _ext_cfgs, FC[:1], gens=GENS, native_samples=3, rtol=1e-7, atol=1e-8, max_paths=4000, task_timeout=900, doc=extent.__doc__,
-             pinned=[({"A": "2x3float", "pinned": "vertex-target"}, {"lb": [0.0, 0.0, 0.0], "ub": [0.59, 1.12, 1.65], "x0": [0.59, 1.12, 1.65]})]),
+             pinned=[({"A": "2x3float", "pinned": "vertex-target"}, {"lb": [0.0, 0.0, 0.0], "ub": [0.59, 1.12, 1.65], "x0": [0.59, 1.12, 1.65]}),
+                     ({"A": "2x4a", "pinned": "two-surplus"}, {"lb": [0, 0, 0, 0], "ub": [1.0, 1.5, 2.0, 1.25], "x0": [0.8, 0.3, 1.6, 0.2], "x": [0.8, 0.3, 1.6, 0.2]}),
+                     ({"A": "3x5a", "pinned": "two-surplus-3x5"}, {"lb": [0, 0, 0, 0, 0], "ub": [1.0, 1.5, 2.0, 1.25, 1.75], "x0": [0.5, 0.75, 1.0, 0.5, 0.75], "x": [0.5, 0.75, 1.0, 0.5, 0.75]})]),
     Contract(P, "_spaced_solutions", spaced, _sp_cfgs, FC[:2], gens=GENS, native_samples=2, rtol=1e-6, atol=1e-6, max_paths=4000, task_timeout=1500, doc=spaced.__doc__,
              pinned=[({"A": "2x4a", "n": 3, "local": True, "pinned": "two-surplus"}, {"x0": [0.004, -0.006, 0.002, 0.009]}),
                      ({"A": "3x5a", "n": 2, "pinned": "two-surplus-3x5"}, {"lb": [0, 0, 0, 0, 0], "ub": [1.0, 1.5, 2.0, 1.25, 1.75], "x0": [0.5, 0.75, 1.0, 0.5, 0.75]})]),
